@@ -97,6 +97,24 @@ Section SpecExec.
         apply filter_In. split; [exact Hf|apply N.eqb_eq; exact Hk].
   Qed.
 
+  Theorem member_step_exec_correct t k L :
+    member_step_exec tm t k = Some L -> forall s, In s L <-> member_step_spec tm t k s.
+  Proof.
+    unfold member_step_exec. destruct (reach_exec tm t) as [R|] eqn:E; [|discriminate].
+    intros H. injection H as <-. intros s. unfold member_step_spec, reachable_def.
+    rewrite in_flat_map. split.
+    - intros [n [Hn Hx]]. apply in_flat_map in Hx. destruct Hx as [d [Hd Hx]].
+      apply in_map_iff in Hx. destruct Hx as [fl [Hl Hf]]. apply filter_In in Hf. destruct Hf as [Hf Hk].
+      apply N.eqb_eq in Hk.
+      apply (reach_exec_correct t R E) in Hn. destruct Hn as [n0 [Hn0 Hr]].
+      exists d, fl. split; [exists n0, n; tauto|]. split; [exact Hf|]. split; [exact Hk|symmetry; exact Hl].
+    - intros [d [fl [[n0 [n [Hn0 [Hr Hd]]]] [Hf [Hk Hl]]]]]. exists n. split.
+      + apply (reach_exec_correct t R E). exists n0. tauto.
+      + apply in_flat_map. exists d. split; [exact Hd|].
+        apply in_map_iff. exists fl. split; [symmetry; exact Hl|].
+        apply filter_In. split; [exact Hf|apply N.eqb_eq; exact Hk].
+  Qed.
+
   (* ---------- the fuel suffices ---------- *)
   Definition wdef (seen : list name) (d : def) : nat :=
     if mem (d_name d) seen || (d_name d =? n_any) then O else S (length (refs_of d)).
